@@ -45,7 +45,7 @@ class G:
         elif kind == "not":
             self.key = ("not", a.key)
         else:
-            self.key = (kind, tuple(sorted((x.key for x in a), key=repr)))
+            self.key = (kind, tuple(sorted((x.key for x in a), key=hash)))
 
     def __hash__(self):
         return hash(self.key)
